@@ -640,7 +640,8 @@ func TestZeroHashHelper(t *testing.T) {
 }
 
 // TestHashHelper registers the pool members named in VERIF_HASH_ORDER and prints the hash. The
-// order is a sequence of groups separated by '|': every group is one variadic GobRegister call.
+// order is a sequence of groups separated by '|': every group is one variadic GobRegister call, the group "R"
+// is a call of GobTypesHashReset (the hash starts over: what counts is what is registered afterwards).
 func TestHashHelper(t *testing.T) {
 	order := os.Getenv("VERIF_HASH_ORDER")
 	if order == "" {
@@ -648,6 +649,12 @@ func TestHashHelper(t *testing.T) {
 	}
 
 	for _, grp := range strings.Split(order, "|") {
+		if grp == "R" {
+			cache.GobTypesHashReset()
+
+			continue
+		}
+
 		var vals []interface{}
 
 		for _, c := range grp {
